@@ -120,7 +120,9 @@ type Summary struct {
 }
 
 // template variables (the same in the process environment, SSO_CONFIG_<KEY>, for the production path)
-var vars = map[string]string{"zone": "sso", "root_domain": "test", "team": "core", "secs": "s", "rtype": "rewrite"}
+// cap and amt carry `$`: a variable's value is substituted verbatim, whatever it contains (a rewrite target's
+// capture reference, a secret with dollars)
+var vars = map[string]string{"zone": "sso", "root_domain": "test", "team": "core", "secs": "s", "rtype": "rewrite", "cap": "$1", "amt": "p$$x${y}$0"}
 
 const cluster = "sso"
 
@@ -182,7 +184,7 @@ func valuesFor(k int, tag string, b Block, regexy bool) vals {
 		}
 	}
 	v.tmo = time.Duration(tagBase[tag]+k) * time.Second
-	v.hdr = map[string]string{"X-Shared": "test-" + id, "X-Own-" + title(tag): "test-" + id}
+	v.hdr = map[string]string{"X-Shared": "test-" + id, "X-Own-" + title(tag): "test-p$$x${y}$0-" + id}
 	v.slug = "sso-slug-" + id
 	return v
 }
@@ -197,7 +199,7 @@ func raw(s string, tpl bool, r *rand.Rand) string {
 	if !tpl {
 		return s
 	}
-	for _, name := range []string{"zone", "root_domain", "team"} {
+	for _, name := range []string{"zone", "root_domain", "team", "cap", "amt"} {
 		val := vars[name]
 		if strings.Contains(s, val) && r.Intn(3) != 0 {
 			if r.Intn(2) == 0 {
